@@ -54,6 +54,15 @@ def normalize(text):
     return text
 
 
+def _is_xfail(test, module_globals):
+    """True if the test function or its module is marked with pytest.mark.xfail."""
+    marks = list(getattr(test, "pytestmark", []))
+    module_marks = module_globals.get("pytestmark", [])
+    if not isinstance(module_marks, (list, tuple)):
+        module_marks = [module_marks]
+    return any(getattr(m, "name", None) == "xfail" for m in [*marks, *module_marks])
+
+
 class Example:
     def __init__(self, files: str | dict[str, str]):
         """
@@ -160,6 +169,17 @@ class Example:
                         tests_found |= len(tests) != 0
 
                         for v in tests:
+                            if _is_xfail(v, globals):
+                                # like the pytest plugin: snapshots are disabled
+                                # in tests which are expected to fail
+                                with snapshot_env() as local_state:
+                                    local_state.active = False
+                                    try:
+                                        v()
+                                    except Exception:
+                                        pass
+                                continue
+
                             try:
                                 v()
                             except Exception as e:
